@@ -1,11 +1,12 @@
 (* C10 - Trotter steps. Only the property theorems, closed by `exact`, with their assumptions and non-vacuity examples.
-   PARTIAL: "equals exp(-iHdt) when the terms commute" is proved algebraically: the sweep is the product of the term
-   exponentials (each the true exponential by C09), independent of the term order, the second-order step equals the
-   first-order one and steps compose additively (one-parameter group) when the terms commute pairwise; the matrix
-   exponential of the SUM is not defined as a limit. The product-formula error BOUNDS are checked numerically only. *)
+   "Equals exp(-iHdt) when the terms commute": the sweep is the product of the term exponentials (each the true exponential
+   by C09), independent of the term order; the second-order step equals the first-order one and steps compose additively
+   (one-parameter group) when the terms commute pairwise; and (C10_commuting_step_is_exact_evolution) that product IS the
+   exponential of the sum, the latter defined as the limit of the operator series sum_k ((-it)^k / k!) H^k psi, amplitude by
+   amplitude. PARTIAL: the product-formula error BOUNDS for non-commuting terms are checked numerically only. *)
 From Coq Require Import List NArith ZArith Bool Ring Reals Lra Permutation.
 From QI Require Import Base.ListAux Base.Scalar Model.Outcome Model.Validate Model.Gates Model.StateOps Model.Pauli Model.Trotter Spec.Embed
-  Proofs.PauliF Proofs.C04a Proofs.C08 Proofs.C09 Proofs.C10 Proofs.C10b Proofs.C10c Proofs.C10d Run.RInst Run.ZInst.
+  Proofs.PauliF Proofs.C04a Proofs.C08 Proofs.C09 Proofs.C09c Proofs.C10 Proofs.C10b Proofs.C10c Proofs.C10d Proofs.C10e Run.RInst Run.ZInst.
 Import ListNotations.
 Open Scope N_scope.
 
@@ -109,6 +110,54 @@ Theorem C10_real_angles_compose :
 Proof. exact fcomp_angles. Qed.
 Print Assumptions C10_sweep_is_product_of_exponentials. Print Assumptions C10_second_order_is_first_order_when_commuting.
 Print Assumptions C10_steps_compose_when_commuting. Print Assumptions C10_real_angles_compose.
+
+(* EXACTNESS. H = sum_l c_l P_l with real c_l and pairwise commuting strings, Hf H its action on amplitude functions, and
+   et (Hf H) (0,-t) k psi x = ((-it)^k / k!) (H^k psi)(x) the k-th term of the exponential series of -itH applied to psi at index x.
+   (1) for every complex tau the series converges, at every index and for every bounded psi, to the product of the term
+       exponentials cosh(c_l tau) + sinh(c_l tau) P_l applied to psi;
+   (2) when the values supplied for each term are the true ones (e^{-i c t}, cos(c t), -i sin(c t)), every amplitude of the state
+       first_order_step returns is the sum of that series: the step IS exp(-iHt) psi. *)
+Theorem C10_commuting_sum_exponential :
+  forall (tau : C (T:=R)) (ts : list hterm), nodup_terms ts -> commuting_terms ts ->
+  forall (f : N -> C (T:=R)) (M : R), bdd f M -> forall x,
+  cseries (fun k => et (Hf ts) tau k f x) (runf rops (map (mk tau) ts) f x).
+Proof. exact commuting_exact. Qed.
+Theorem C10_commuting_step_is_exact_evolution :
+  forall par n (H : list (eterm (T:=R))) (t : R) v,
+  H <> [] -> Forall (term_ok n) H -> length v = N.to_nat (2 ^ n) -> Forall (true_values t) H ->
+  commuting_terms (map hterm_of H) ->
+  exists w, first_order_step rops par H (mkState n v) = Ok (mkState n w) /\ length w = N.to_nat (2 ^ n) /\
+    forall x, x < 2 ^ n ->
+      infinite_sum (fun k => fst (et (Hf (map hterm_of H)) (0, - t)%R k (get (c0 rops) v) x)) (fst (get (c0 rops) w x)) /\
+      infinite_sum (fun k => snd (et (Hf (map hterm_of H)) (0, - t)%R k (get (c0 rops) v) x)) (snd (get (c0 rops) w x)).
+Proof. exact commuting_step_exact_Reals. Qed.
+Theorem C10_commuting_second_order_step_is_exact_evolution :
+  forall par n (Hhalf : list (eterm (T:=R))) (t : R) v,
+  Hhalf <> [] -> Forall (term_ok n) Hhalf -> length v = N.to_nat (2 ^ n) -> Forall (true_values (t / 2)%R) Hhalf ->
+  commuting_terms (map hterm_of Hhalf) ->
+  exists w, second_order_step rops par Hhalf (mkState n v) = Ok (mkState n w) /\ length w = N.to_nat (2 ^ n) /\
+    forall x, x < 2 ^ n ->
+      infinite_sum (fun k => fst (et (Hf (map hterm_of Hhalf)) (0, - t)%R k (get (c0 rops) v) x)) (fst (get (c0 rops) w x)) /\
+      infinite_sum (fun k => snd (et (Hf (map hterm_of Hhalf)) (0, - t)%R k (get (c0 rops) v) x)) (snd (get (c0 rops) w x)).
+Proof. exact commuting_second_order_exact. Qed.
+Print Assumptions C10_commuting_second_order_step_is_exact_evolution.
+(* what the notions mean *)
+Theorem C10_series_term_meaning :
+  forall (A : (N -> C (T:=R)) -> N -> C (T:=R)) tau k f x,
+  et A tau k f x = cmul rops (cmul rops (invfact k) (cpow rops tau k)) (opow A k f x).
+Proof. exact et_meaning. Qed.
+Theorem C10_hamiltonian_action_meaning :
+  forall c ops (r : list hterm) f x,
+  Hf ((c, ops) :: r) f x = cadd rops (cmul rops (c, 0%R) (apply_ops_f rops ops f x)) (Hf r f x) /\ Hf [] f x = c0 rops.
+Proof. exact Hf_meaning. Qed.
+Print Assumptions C10_commuting_sum_exponential. Print Assumptions C10_commuting_step_is_exact_evolution.
+Example C10_exact_evolution_nonvacuous :
+  let P1 := mkPS (T:=R) [(0%N, PZ); (1%N, PZ)] (1, 0)%R in let P2 := mkPS (T:=R) [(1%N, PZ)] (2, 0)%R in
+  let t := (/ 2)%R in
+  let H := [(P1, ((cos (1 * t), - sin (1 * t)), (cos (1 * t), 0), (0, - sin (1 * t))));
+            (P2, ((cos (2 * t), - sin (2 * t)), (cos (2 * t), 0), (0, - sin (2 * t))))]%R in
+  H <> [] /\ Forall (term_ok 2) H /\ Forall (true_values t) H /\ commuting_terms (map hterm_of H).
+Proof. exact exact_example. Qed.
 
 Example C10_commuting_nonvacuous :
   let P1 := mkPS (T:=R) [(0%N, PZ); (1%N, PZ)] (1, 0)%R in let P2 := mkPS (T:=R) [(1%N, PZ)] (1, 0)%R in
